@@ -49,6 +49,115 @@ def config_fn(rng):
     return cfg
 
 
+RARE_SRC = """
+from mashumaro.types import GenericSerializableType
+from typing_extensions import TypeVarTuple, LiteralString
+KT = TypeVar('KT')
+VT = TypeVar('VT')
+Ts = TypeVarTuple('Ts')
+T1 = TypeVar('T1')
+
+class DictWrapper(Dict[KT, VT], GenericSerializableType):
+    __packers__ = {datetime.date: lambda x: x.isoformat(), str: str, int: int}
+    __unpackers__ = {datetime.date: datetime.date.fromisoformat, str: str, int: int}
+    def _serialize(self, types):
+        k_type, v_type = types
+        return {self.__packers__[k_type](k): self.__packers__[v_type](v) for k, v in self.items()}
+    @classmethod
+    def _deserialize(cls, value, types):
+        k_type, v_type = types
+        return cls({cls.__unpackers__[k_type](k): cls.__unpackers__[v_type](v) for k, v in value.items()})
+
+@dataclass
+class Row(Generic[Unpack[Ts]]):
+    cells: Tuple[Unpack[Ts]]
+    label: str = ''
+
+@dataclass
+class Lead(Generic[T1, Unpack[Ts]]):
+    head: T1
+    rest: Tuple[Unpack[Ts]] = ()
+
+Point = collections.namedtuple('Point', ['x', 'y'])
+
+class TDro(TypedDict):
+    ident: ReadOnly[int]
+    when: NotRequired[ReadOnly[datetime.date]]
+
+@dataclass
+class Rare@MIX@:
+    w1: DictWrapper[datetime.date, str]
+    w2: DictWrapper[str, datetime.date]
+    row: Row[int, datetime.date, str]
+    lead: Lead[datetime.date, int, uuid.UUID]
+    ls: LiteralString
+    pt: Point
+    ro: TDro
+    rows: List[Row[datetime.date]] = field(default_factory=list)
+    empty: Row[()] = field(default_factory=lambda: Row(()))
+    wopt: Optional[DictWrapper[int, int]] = None
+@CFG@
+"""
+
+
+def rare_constructors_case(rng, rec):
+    """rarely used constructors of the supported grammar, with hand-written wire forms: GenericSerializableType, dataclasses generic
+    in a TypeVarTuple, LiteralString, untyped collections.namedtuple, ReadOnly TypedDict members."""
+    import datetime
+    import uuid as _uuid
+    from mashumaro.codecs.basic import BasicDecoder, BasicEncoder
+    fam = Family("c01r", future_annotations=False)
+    try:
+        mixin = rng.random() < 0.6
+        cfg = []
+        if rng.random() < 0.3:
+            cfg.append("lazy_compilation = True")
+        if rng.random() < 0.3:
+            cfg.append("sort_keys = True")
+        src = RARE_SRC.replace("@MIX@", "(DataClassDictMixin)" if mixin else "").replace(
+            "@CFG@", ("    class Config(BaseConfig):\n" + "".join(f"        {c}\n" for c in cfg)) if cfg else "")
+        try:
+            fam.exec_src(src)
+        except Exception as e:
+            rec.violation(f"rare-constructors:class-build:{type(e).__name__}", {"error": f"{type(e).__name__}: {e}"[:300], "source": src}, {"stage": "build", "scenario": "rare"})
+            return
+        m = fam.module
+        D = datetime.date
+        d1, d2 = D(2020, 1, rng.randint(1, 28)), D(1999, 12, 31)
+        u = _uuid.UUID(int=rng.getrandbits(64))
+        txt = rng.choice(["", "x", "né", "a'b"])
+        v = m.Rare(w1=m.DictWrapper({d1: txt}), w2=m.DictWrapper({"k": d2}), row=m.Row((1, d1, "s"), "l"), lead=m.Lead(d2, (7, u)), ls=txt, pt=m.Point(1, "y"),
+                   ro={"ident": 3, "when": d1} if rng.random() < 0.6 else {"ident": 3}, rows=[m.Row((d2,))], empty=m.Row(()),
+                   wopt=m.DictWrapper({1: 2}) if rng.random() < 0.5 else None)
+        exp = {"w1": {d1.isoformat(): txt}, "w2": {"k": d2.isoformat()}, "row": {"cells": [1, d1.isoformat(), "s"], "label": "l"},
+               "lead": {"head": d2.isoformat(), "rest": [7, str(u)]}, "ls": txt, "pt": [1, "y"],
+               "ro": {"ident": 3, **({"when": d1.isoformat()} if "when" in v.ro else {})}, "rows": [{"cells": [d2.isoformat()], "label": ""}],
+               "empty": {"cells": [], "label": ""}, "wopt": {1: 2} if v.wopt is not None else None}
+        routes = [("codec", BasicEncoder(m.Rare).encode, BasicDecoder(m.Rare).decode)]
+        if mixin:
+            routes.append(("mixin", lambda x: x.to_dict(), m.Rare.from_dict))
+        for rname, enc, dec in routes:
+            rec.evaluation()
+            facts = {"scenario": "rare", "route": rname}
+            try:
+                doc = enc(v)
+                back = dec(doc)
+            except Exception as e:
+                rec.violation(f"rare-constructors:{rname}:exception:{type(e).__name__}", {"error": f"{type(e).__name__}: {e}"[:300], "cause": repr(e.__context__)[:200], "source": src}, facts)
+                continue
+            if doc != exp or ("sort_keys = True" not in cfg and list(doc) != list(exp)):
+                rec.violation(f"rare-constructors:{rname}:document-differs", {"observed": common.short(doc, 600), "expected": common.short(exp, 600), "source": src}, facts)
+            elif (back != v or type(back.w1) is not m.DictWrapper or type(back.row.cells) is not tuple or type(back.row.cells[1]) is not D
+                  or type(back.lead.rest[1]) is not _uuid.UUID or type(back.pt) is not m.Point or type(back.rows[0]) is not m.Row):
+                rec.violation(f"rare-constructors:{rname}:roundtrip-mismatch", {"decoded": common.short(back, 600), "value": common.short(v, 600), "source": src}, facts)
+            else:
+                rec.count("roundtrips_ok")
+                rec.count("rare_constructors_ok")
+                rec.nontrivial(("rare", rname, tuple(cfg), "when" in v.ro, v.wopt is None, txt))
+    finally:
+        fam.dispose()
+
+
 def run_case(seed, tier, rec, st):
     from mashumaro.codecs.basic import BasicDecoder, BasicEncoder
     import mashumaro.codecs.basic as basic
@@ -56,6 +165,8 @@ def run_case(seed, tier, rec, st):
     if rng.random() < 0.03:
         common.two_module_generic_case(rng, rec, "cg")
         return
+    if rng.random() < 0.03:
+        return rare_constructors_case(rng, rec)
     fam = Family("c01", future_annotations=rng.random() < 0.2)
     try:
         tg = TypeGen(fam, rng, dc_config_fn=config_fn)
